@@ -8,8 +8,14 @@ CONSTANTS
   PemCounts = {2, 3}
   MaxUiPages = 4
   EmptyAuthRefused = FALSE
+  UdSources = {"hex", "node"}
+  RootVias = {"file", "url"}
   Bug = "none"
 INVARIANT WellFormed
+INVARIANT NodeProtocol
+INVARIANT NodeBad
+INVARIANT UdDelivered
+INVARIANT RootFetch
 INVARIANT GenuineGathers
 INVARIANT GenuineVerifies
 INVARIANT AlteredFails
